@@ -51,6 +51,10 @@ CLAIMED["C07"] = ("Bounded symbolic model checking of undo/redo through the real
  "Trusted: gosx, paint stubs, terminal stub; emacs mode only, history walks are not part of the command alphabet.",
  "symbolic execution of the real SSA (Readline loop) + SMT (z3) decision over symbolic command sequences, assertions against a ghost model", "DESIGN.md §5 C07")
 
+CLAIMED["C03"] = ("Bounded symbolic model checking of key dispatch against a reference resolver: the emacs keymap of a real shell is replaced by a symbolic table of bindings (symbolic sequences over printable, ESC, control and meta-encoded keys, each bound to its own probe command) and symbolic keys are typed one per read into the real Readline loop; which command fires first and at which key is asserted equal to the five rules of the property.",
+ "Trusted: gosx, the 30-line reference resolver, paint stubs, terminal stub. Main keymap emacs only; macro bindings are not in the symbolic tables; only the first resolution is compared.",
+ "symbolic execution of the real SSA (Readline loop, symbolic bind tables) + SMT (z3) equivalence with a reference resolver", "DESIGN.md §5 C03")
+
 PENDING = {}
 
 NA = {
